@@ -1,6 +1,7 @@
 import PokerVerif.Lemmas.TBLedger
 import PokerVerif.Lemmas.TBOpen
 import PokerVerif.Lemmas.TBIndex
+import PokerVerif.Lemmas.TBSeatsRun
 import PokerVerif.Props.C01
 /-!
 # C02 — A hand's seat numbers denote the same players from open to settlement
@@ -157,6 +158,19 @@ theorem C02_hand_list (s : State) (sm : SM.State) (hop : (openTable s sm).2 = .o
       rw [hp] at hel
       simp only [Option.map_some] at hel
       exact ⟨h0, p, rfl, (Option.some.inj hel).symm.trans hpp⟩
+
+/-- **C02 (partial) — … in every reachable state**: the same for the table reached by any history whose arrivals were given
+seats the table showed free (`ArrivalsOK`, see `C03_bookkeeping_partial`): no separate consistency hypothesis is needed -/
+theorem C02_hand_list_reachable_partial (cfg : Meta) (b : Blind) (evs : List Event) (ha : ArrivalsOK (create cfg b) evs)
+    (sm : SM.State) (hop : (openTable (run (create cfg b) evs) sm).2 = .opened)
+    (hrule : (run (create cfg b) evs).cfg.rule ≠ .shortDeck) (hn : 0 < (run (create cfg b) evs).seatMap.length)
+    (hstart : handStart { run (create cfg b) evs with sm := sm } (openTable (run (create cfg b) evs) sm).1.players ≠ -1) :
+    (∀ pi, pi ∈ (openTable (run (create cfg b) evs) sm).1.gidx ↔
+      (0 ≤ pi ∧ ∃ p, (openTable (run (create cfg b) evs) sm).1.players[pi.toNat]? = some p ∧ p.participated = true)) ∧
+    (openTable (run (create cfg b) evs) sm).1.gidx.Nodup :=
+  let w := C02_hand_list (run (create cfg b) evs) sm hop hrule
+    (run_booked _ evs (create_booked cfg b) ha).1.1 hn hstart
+  ⟨w.1, w.2.1⟩
 
 -- non-vacuity of `C02_hand_list`: the state of the example history just before its first hand opens is consistent, the
 -- open succeeds, a start seat exists — and the list is the three dealt-in players clockwise from the dealer
